@@ -267,7 +267,8 @@ def check(run, F, tier):
                     if sp:
                         present = (c_[1] == 1) if ke[1].endswith("contains") or ke[1].endswith("contains_key") else (c_[1] == 0)
                         mem.add("%s:%s" % (sp.group(1), "present" if present else "absent"))
-            bad.setdefault("returns %s with status=%s%s" % (w, sts, (" " + ",".join(sorted(mem))) if mem else ""), p)
+            for st_ in sts.split(","):          # one case per status value, however the code groups them into paths
+                bad.setdefault("returns %s with status=%s%s" % (w, st_, (" " + ",".join(sorted(mem))) if mem else ""), p)
         key = f["name"]
         if bad:
             for pr, p in sorted(bad.items()):
